@@ -1,5 +1,6 @@
 // seq_sp.cpp — sequential differential driver for cocls::suspend_point (C06, C20 threshold).
 // engines: sp0 (ops issued from ordinary code), sp1 (ops issued by a coroutine running under the ready queue)
+// Objects are suspend_point<void> or suspend_point<MV>; MV is a class type whose moves are observable.
 #define VH_DEFINE_NEW
 #include "common.h"
 #define protected public
@@ -7,26 +8,58 @@
 #include <cocls/suspend_point.h>
 #undef protected
 #undef private
+#include <cocls/self.h>
 
 using namespace cocls;
 
+// value type of the typed suspend points: a moved-from MV shows -1
+struct MV {
+    long v;
+    explicit MV(long x) : v(x) {}
+    MV(const MV &o) : v(o.v) {}
+    MV(MV &&o) noexcept : v(o.v) { o.v = -1; }
+    MV &operator=(const MV &o) { v = o.v; return *this; }
+    MV &operator=(MV &&o) noexcept {
+        if (this != &o) { v = o.v; o.v = -1; }
+        return *this;
+    }
+};
+
+struct Slot {
+    std::optional<suspend_point<void>> v;
+    std::optional<suspend_point<MV>> t;
+    bool live() const { return v.has_value() || t.has_value(); }
+    bool typed() const { return t.has_value(); }
+    suspend_point<void> *base() { return t ? static_cast<suspend_point<void> *>(&*t) : (v ? &*v : nullptr); }
+    long size() { return (long)base()->size(); }
+    // the value as the public API shows it: const conversion
+    long value() const {
+        if (!t) return 0;
+        const suspend_point<MV> &c = *t;
+        MV r = c;
+        return r.v;
+    }
+};
+
 struct Ctx {
-    std::vector<std::optional<suspend_point<int>>> slots;
+    std::vector<Slot> slots;
     std::map<long, vh::tco> coros;
     std::vector<long> log;
+    long holder = -1;   // slot whose list contains the driver's own handle (bookkeeping of what the ops did)
     std::coroutine_handle<> handle_for(long id) {
         auto it = coros.find(id);
         if (it == coros.end()) it = coros.emplace(id, vh::logging_coro(id, &log)).first;
         return it->second.h;
     }
-    long id_of(std::coroutine_handle<> h) {
-        for (auto &kv : coros)
-            if (kv.second.h.address() == h.address()) return kv.first;
-        return -1;
-    }
-    std::optional<suspend_point<int>> &slot(long o) {
+    Slot &slot(long o) {
         if ((size_t)o >= slots.size()) slots.resize(o + 1);
         return slots[o];
+    }
+    void note(long id) {
+        bool saved = vh::t_count;
+        vh::t_count = false;
+        log.push_back(id);
+        vh::t_count = saved;
     }
     ~Ctx() {
         for (auto &kv : coros) kv.second.h.destroy();
@@ -44,91 +77,183 @@ static void reject(Ctx &c) {
     c.log.clear();
     emit(c, 1, 0, 0, m);
 }
+static bool valid_slot(long o) { return o >= 0 && o < 64; }
 
-// executes every op except Await/Flush; returns false if op is one of those
+// executes every op except the awaiting ones (9 Await, 10 Flush, 16 AwaitL, 17 AddSelf); returns false for those
 static bool exec_plain(Ctx &c, const std::vector<long> &op) {
     if (op.empty()) { reject(c); return true; }
+    auto arity = [&](size_t k) { return op.size() == k && valid_slot(op[1]); };
     switch (op[0]) {
         case 0: {  // NewV o v
+            if (!arity(3)) { reject(c); return true; }
             auto &s = c.slot(op[1]);
-            if (s) { reject(c); return true; }
+            if (s.live()) { reject(c); return true; }
             vh::alloc_mark m;
-            s.emplace((int)op[2]);
-            emit(c, 0, s->size(), (int)*s, m);
+            s.t.emplace(MV(op[2]));
+            emit(c, 0, s.size(), s.value(), m);
             return true;
         }
         case 1: {  // NewH o h v
+            if (!arity(4) || op[2] <= 0) { reject(c); return true; }
             auto &s = c.slot(op[1]);
-            if (s) { reject(c); return true; }
+            if (s.live()) { reject(c); return true; }
             auto h = c.handle_for(op[2]);
             vh::alloc_mark m;
-            s.emplace(h, (int)op[3]);
-            emit(c, 0, s->size(), (int)*s, m);
+            s.t.emplace(h, MV(op[3]));
+            emit(c, 0, s.size(), s.value(), m);
+            return true;
+        }
+        case 13: {  // NewVoid o
+            if (!arity(2)) { reject(c); return true; }
+            auto &s = c.slot(op[1]);
+            if (s.live()) { reject(c); return true; }
+            vh::alloc_mark m;
+            s.v.emplace();
+            emit(c, 0, s.size(), s.value(), m);
+            return true;
+        }
+        case 14: {  // NewVoidH o h
+            if (!arity(3) || op[2] <= 0) { reject(c); return true; }
+            auto &s = c.slot(op[1]);
+            if (s.live()) { reject(c); return true; }
+            auto h = c.handle_for(op[2]);
+            vh::alloc_mark m;
+            s.v.emplace(h);
+            emit(c, 0, s.size(), s.value(), m);
+            return true;
+        }
+        case 12: {  // Create o t v h...
+            if (op.size() < 4 || !valid_slot(op[1]) || (op[2] != 0 && op[2] != 1)) { reject(c); return true; }
+            for (size_t i = 4; i < op.size(); i++)
+                if (op[i] <= 0) { reject(c); return true; }
+            auto &s = c.slot(op[1]);
+            if (s.live()) { reject(c); return true; }
+            std::vector<std::coroutine_handle<>> hs;
+            for (size_t i = 4; i < op.size(); i++) hs.push_back(c.handle_for(op[i]));
+            vh::alloc_mark m;
+            if (op[2] == 1) {
+                long v = op[3];
+                s.t.emplace(coro_queue::create_suspend_point([&] {
+                    for (auto h : hs) coro_queue::resume(h);
+                    return MV(v);
+                }));
+            } else {
+                s.v.emplace(coro_queue::create_suspend_point([&] {
+                    for (auto h : hs) coro_queue::resume(h);
+                }));
+            }
+            emit(c, 0, s.size(), s.value(), m);
             return true;
         }
         case 2: {  // Add o h
+            if (!arity(3) || op[2] <= 0) { reject(c); return true; }
             auto &s = c.slot(op[1]);
-            if (!s) { reject(c); return true; }
+            if (!s.live()) { reject(c); return true; }
             auto h = c.handle_for(op[2]);
             vh::alloc_mark m;
-            (*s) << std::move(h);
-            emit(c, 0, s->size(), (int)*s, m);
+            (*s.base()) << std::move(h);
+            emit(c, 0, s.size(), s.value(), m);
             return true;
         }
         case 3:     // Merge a << move(b)
         case 11: {  // MoveAssign a = move(b)
-            if (op[1] == op[2]) { reject(c); return true; }
+            if (!arity(3) || !valid_slot(op[2]) || op[1] == op[2]) { reject(c); return true; }
             c.slot(std::max(op[1], op[2]));
             auto &a = c.slot(op[1]);
             auto &b = c.slot(op[2]);
-            if (!a || !b) { reject(c); return true; }
+            if (!a.live() || !b.live()) { reject(c); return true; }
+            if (op[0] == 11 && a.typed() && !b.typed()) { reject(c); return true; }   // does not compile
             vh::alloc_mark m;
-            if (op[0] == 3) (*a) << std::move(static_cast<suspend_point<void> &>(*b));
-            else *a = std::move(*b);
-            emit(c, 0, a->size(), (int)*a, m);
+            if (op[0] == 3) (*a.base()) << std::move(*b.base());
+            else if (a.typed()) *a.t = std::move(*b.t);
+            else *a.v = std::move(*b.base());
+            if (c.holder == op[2]) c.holder = op[1];
+            emit(c, 0, a.size(), a.value(), m);
             return true;
         }
         case 4:    // MoveCtor a(move(b))
         case 5: {  // MoveBase a(move(base b), v)
-            if (op[1] == op[2]) { reject(c); return true; }
+            if (!arity(op[0] == 4 ? 3 : 4) || !valid_slot(op[2]) || op[1] == op[2]) { reject(c); return true; }
             c.slot(std::max(op[1], op[2]));
             auto &a = c.slot(op[1]);
             auto &b = c.slot(op[2]);
-            if (a || !b) { reject(c); return true; }
+            if (a.live() || !b.live()) { reject(c); return true; }
             vh::alloc_mark m;
-            if (op[0] == 4) a.emplace(std::move(*b));
-            else a.emplace(std::move(static_cast<suspend_point<void> &>(*b)), (int)op[3]);
-            emit(c, 0, a->size(), (int)*a, m);
+            if (op[0] == 5) a.t.emplace(std::move(*b.base()), MV(op[3]));
+            else if (b.typed()) a.t.emplace(std::move(*b.t));
+            else a.v.emplace(std::move(*b.v));
+            if (c.holder == op[2]) c.holder = op[1];
+            emit(c, 0, a.size(), a.value(), m);
+            return true;
+        }
+        case 18: {  // Swap a b
+            if (!arity(3) || !valid_slot(op[2]) || op[1] == op[2]) { reject(c); return true; }
+            c.slot(std::max(op[1], op[2]));
+            auto &a = c.slot(op[1]);
+            auto &b = c.slot(op[2]);
+            if (!a.live() || !b.live() || a.typed() != b.typed()) { reject(c); return true; }
+            vh::alloc_mark m;
+            if (a.typed()) std::swap(*a.t, *b.t);
+            else std::swap(*a.v, *b.v);
+            if (c.holder == op[1]) c.holder = op[2];
+            else if (c.holder == op[2]) c.holder = op[1];
+            emit(c, 0, a.size(), a.value(), m);
+            return true;
+        }
+        case 15: {  // Read o k
+            if (!arity(3) || (op[2] != 0 && op[2] != 1)) { reject(c); return true; }
+            auto &s = c.slot(op[1]);
+            if (!s.live() || !s.typed()) { reject(c); return true; }
+            vh::alloc_mark m;
+            long val;
+            if (op[2] == 0) {
+                MV r = *s.t;   // operator X()
+                val = r.v;
+            } else {
+                const suspend_point<MV> &cs = *s.t;
+                const MV r = cs;   // operator const X() const
+                val = r.v;
+            }
+            emit(c, 0, s.size(), val, m);
             return true;
         }
         case 6: {  // Pop o
+            if (!arity(2)) { reject(c); return true; }
             auto &s = c.slot(op[1]);
-            if (!s) { reject(c); return true; }
+            if (!s.live() || c.holder == op[1]) { reject(c); return true; }
             vh::alloc_mark m;
-            std::coroutine_handle<> h = s->pop();
+            std::coroutine_handle<> h = s.base()->pop();
             if (h != std::noop_coroutine()) h.resume();
-            emit(c, 0, s->size(), (int)*s, m);
+            emit(c, 0, s.size(), s.value(), m);
             return true;
         }
         case 7: {  // Clear o
+            if (!arity(2)) { reject(c); return true; }
             auto &s = c.slot(op[1]);
-            if (!s) { reject(c); return true; }
+            if (!s.live() || c.holder == op[1]) { reject(c); return true; }
             vh::alloc_mark m;
-            s->clear();
-            emit(c, 0, s->size(), (int)*s, m);
+            s.base()->clear();
+            emit(c, 0, s.size(), s.value(), m);
             return true;
         }
         case 8: {  // Destroy o
+            if (!arity(2)) { reject(c); return true; }
             auto &s = c.slot(op[1]);
-            if (!s) { reject(c); return true; }
-            int v = (int)*s;
+            if (!s.live() || c.holder == op[1]) { reject(c); return true; }
+            long v = s.value();
             vh::alloc_mark m;
-            s.reset();
+            s.t.reset();
+            s.v.reset();
             emit(c, 0, 0, v, m);
             return true;
         }
         case 9:
+        case 16:
+        case 17:
+            if (!arity(2)) { reject(c); return true; }
+            return false;
         case 10:
+            if (op.size() != 1) { reject(c); return true; }
             return false;
         default:
             reject(c);
@@ -139,20 +264,52 @@ static bool exec_plain(Ctx &c, const std::vector<long> &op) {
 static vh::tco driver_coro(Ctx &c, const vh::Case &cs) {
     for (auto &op : cs.ops) {
         if (exec_plain(c, op)) continue;
-        if (op[0] == 9) {  // Await o
+        if (op[0] == 9) {  // Await o: a temporary move-constructed from the slot, as user code does with `co_await f()`
             auto &s = c.slot(op[1]);
-            if (!s) { reject(c); continue; }
+            if (!s.live()) { reject(c); continue; }
             vh::alloc_mark m;
-            int v;
-            {
-                // await a temporary move-constructed from the slot, as user code does with `co_await f()`
-                suspend_point<int> tmp(std::move(*s));
-                v = co_await std::move(tmp);
+            long v = 0;
+            if (s.typed()) {
+                suspend_point<MV> tmp(std::move(*s.t));
+                if (c.holder == op[1] && !tmp.empty()) c.holder = -1;
+                MV &r = co_await tmp;
+                c.note(0);
+                v = r.v;
+            } else {
+                suspend_point<void> tmp(std::move(*s.v));
+                if (c.holder == op[1] && !tmp.empty()) c.holder = -1;
+                co_await tmp;
+                c.note(0);
             }
-            emit(c, 0, s->size(), v, m);
+            emit(c, 0, c.slot(op[1]).size(), v, m);
+        } else if (op[0] == 16) {  // AwaitL o: the object itself
+            auto &s = c.slot(op[1]);
+            if (!s.live()) { reject(c); continue; }
+            vh::alloc_mark m;
+            long v = 0;
+            if (c.holder == op[1] && !s.base()->empty()) c.holder = -1;
+            if (s.typed()) {
+                suspend_point<MV> &obj = *s.t;
+                MV &r = co_await obj;
+                c.note(0);
+                v = r.v;
+            } else {
+                suspend_point<void> &obj = *s.v;
+                co_await obj;
+                c.note(0);
+            }
+            emit(c, 0, c.slot(op[1]).size(), v, m);
+        } else if (op[0] == 17) {  // AddSelf o
+            auto &s = c.slot(op[1]);
+            if (!s.live() || c.holder >= 0) { reject(c); continue; }
+            vh::alloc_mark m;
+            (*s.base()) << co_await cocls::self();
+            c.holder = op[1];
+            emit(c, 0, c.slot(op[1]).size(), c.slot(op[1]).value(), m);
         } else {  // Flush
             vh::alloc_mark m;
             co_await cocls::pause();
+            c.note(0);
             emit(c, 0, 0, 0, m);
         }
     }
@@ -171,6 +328,7 @@ int main(int argc, char **argv) {
         std::deque<std::coroutine_handle<>>().swap(coro_queue::queue_impl::instance._queue);
         {
             Ctx c;
+            c.slots.reserve(64);   // slot references stay valid across the driver's suspensions
             if (cs.engine == "sp1") {
                 auto d = driver_coro(c, cs);
                 coro_queue::install_queue_and_call([&] { d.h.resume(); });
